@@ -432,6 +432,7 @@ class MoveGen:
         if feat:
             self.feat.update(feat)
         self.counter = 0
+        self.consumed = False
 
     def fresh(self, p):
         self.counter += 1
@@ -439,21 +440,25 @@ class MoveGen:
 
     # ---- expressions --------------------------------------------------------------
     def name_for(self, kind):
-        if self.rng.random() < self.feat["unknown"]:
+        # unknown names only where the value is consumed by an effect: a dead lookup is
+        # legitimately removed by DCE and then fails on no route
+        if self.consumed and self.rng.random() < self.feat["unknown"]:
             return "zz"
         return self.rng.choice(KNOWN[kind])
 
-    def int_e(self, env, depth=2):
+    def int_e(self, env, depth=2, typed=False):
+        """typed=True: only sub-expressions kirin's type inference types as int (results of
+        subroutine / closure calls are untyped and are rejected where a statement declares int/float)"""
         r = self.rng.random()
-        ints = env["int"]
+        ints = env["int"] + ([] if typed else env["uint"])
         if depth == 0 or r < 0.3:
             return L(self.rng.randrange(0, 4))
         if ints and r < 0.55:
             return ("var", self.rng.choice(ints))
         if r < 0.7:
-            return P(self.rng.choice(["add", "sub", "mul"]), self.int_e(env, depth - 1), self.int_e(env, depth - 1))
+            return P(self.rng.choice(["add", "sub", "mul"]), self.int_e(env, depth - 1, typed), self.int_e(env, depth - 1, typed))
         if r < 0.76:
-            return P(self.rng.choice(["floordiv", "mod"]), self.int_e(env, depth - 1), L(self.rng.randrange(1, 4)))
+            return P(self.rng.choice(["floordiv", "mod"]), self.int_e(env, depth - 1, typed), L(self.rng.randrange(1, 4)))
         if r < 0.86 and self.feat["lookups"]:
             return ("look", "intC", self.name_for("intC"))
         if r < 0.93 and env["grid"]:
@@ -472,8 +477,6 @@ class MoveGen:
             # kirin's type inference only types float * <int variable or literal> as float
             iv = ("var", self.rng.choice(env["int"])) if env["int"] and self.rng.random() < 0.7 else L(self.rng.randrange(0, 4))
             return P("mul", L(Fraction(self.rng.randrange(1, 5), 2)), iv)
-        if depth > 0:
-            return P("add", self.float_e(env, 0), self.float_e(env, 0))
         return L(Fraction(self.rng.randrange(0, 5), 2))
 
     def bool_e(self, env):
@@ -499,6 +502,13 @@ class MoveGen:
 
     # ---- statements ----------------------------------------------------------------
     def gate(self, env):
+        self.consumed = True
+        try:
+            return self._gate(env)
+        finally:
+            self.consumed = False
+
+    def _gate(self, env):
         r = self.rng.random()
         if r < 0.25:
             return ("eff", "global_r", [self.float_e(env), self.float_e(env)])
@@ -517,7 +527,7 @@ class MoveGen:
         f = ("var", self.rng.choice(env["dev"]))
         kern = env["devkern"][f[1]]
         # kernel signature (g, n): grid + int
-        args = [self.grid_e(env), self.int_e(env, 1)]
+        args = [self.grid_e(env), self.int_e(env, 1, typed=True)]
         kw = []
         r = self.rng.random()
         if r < 0.3:
@@ -569,14 +579,14 @@ class MoveGen:
             inner["int"] += [v, acc]
             body = [("assign", acc, P("add", ("var", acc), L(1)))] + self.block(inner, depth - 1, in_fn, self.rng.randrange(1, 3))
             env["int"].append(acc)
-            stop = self.int_e(env, 1) if self.rng.random() < 0.5 else L(self.rng.randrange(0, 4))
+            stop = self.int_e(env, 1, typed=True) if self.rng.random() < 0.5 else L(self.rng.randrange(0, 4))
             return [("assign", acc, L(0)), ("for", v, L(self.rng.randrange(0, 2)), stop, L(self.rng.choice([1, 1, 2])), body)]
         if r < 0.92 and f["subs"] and env["subs"]:
             s = self.rng.choice(env["subs"])
             call = ("call", s["name"], [self.int_e(env, 1) if k == "int" else self.grid_e(env) for k in s["kinds"]])
             if s["returns"] == "int":
                 x = self.fresh("r")
-                env["int"].append(x)
+                env["uint"].append(x)
                 return [("assign", x, call)]
             return [("expr", call)]
         if r < 0.92 + f["assert"]:
@@ -609,7 +619,7 @@ class MoveGen:
                 "nested": {}, "kinds": ["grid", "int"]}
 
     def new_env(self):
-        return {"int": [], "float": [], "bool": [], "grid": [], "dev": [], "devkern": {}, "subs": []}
+        return {"int": [], "uint": [], "float": [], "bool": [], "grid": [], "dev": [], "devkern": {}, "subs": []}
 
     def with_devs(self, env, kernels):
         pre = []
@@ -692,7 +702,7 @@ class MoveGen:
             body.append(("assign", cname, ("lam", cname)))
             x = self.fresh("r")
             body.append(("assign", x, ("callv", ("var", cname), [self.int_e(env, 1)])))
-            env["int"].append(x)
+            env["uint"].append(x)
             if self.rng.random() < 0.4:
                 body += self.block(env, 1, False, 1)
                 body.append(("expr", ("callv", ("var", cname), [L(self.rng.randrange(0, 3))])))
